@@ -97,7 +97,14 @@ func (gw *exclusiveGateway) run(ctx context.Context, sender tracing.ISenderHandl
 				if response, ok := gw.probing[m.flowId]; ok {
 					if response == nil {
 						// Reschedule, there's no next action yet
-						go func() { gw.mch <- m }()
+						go func() {
+							select {
+							case gw.mch <- m:
+							case <-ctx.Done():
+								// the loop has ended with its context and the inbox
+								// is full: nobody would read the report any more
+							}
+						}()
 						continue
 					}
 					delete(gw.probing, m.flowId)
@@ -153,9 +160,14 @@ func (gw *exclusiveGateway) run(ctx context.Context, sender tracing.ISenderHandl
 					m.response <- probeAction{
 						sequenceFlows: gw.nonDefaultSequenceFlows,
 						probeReport: func(indices []int) {
-							gw.mch <- gatewayProbingReport{
+							select {
+							case gw.mch <- gatewayProbingReport{
 								result: indices,
 								flowId: m.flow.Id(),
+							}:
+							case <-ctx.Done():
+								// the loop has ended with its context and the inbox is
+								// full: nobody would read the report any more
 							}
 						},
 					}
@@ -175,7 +187,13 @@ func (gw *exclusiveGateway) NextAction(ctx context.Context, flow Flow) chan IAct
 	})
 
 	response := make(chan IAction, 1)
-	gw.mch <- nextActionMessage{response: response, flow: flow}
+	select {
+	case gw.mch <- nextActionMessage{response: response, flow: flow}:
+	case <-ctx.Done():
+		// the node's loop has ended with its context and the inbox is full (more tokens
+		// than it holds arrived since): the flow, which watches the same context, gets a
+		// channel on which no action ever arrives
+	}
 	return response
 }
 
